@@ -1844,3 +1844,451 @@ Proof.
   - apply unreg_WFm_mf; assumption.
   - apply unreg_WFm_nomf; assumption.
 Qed.
+
+(* ---------- the invariant over ALL histories (matching function registered at any time) ---------- *)
+Lemma add_links_WF ls : forall s, WF s ->
+  WF (add_links mf s ls) /\ m_mf (add_links mf s ls) = m_mf s /\
+  (forall x y, In (x, y) (links_of (add_links mf s ls)) <-> In (x, y) ls \/ In (x, y) (links_of s)) /\
+  (forall k, In k (map fst (m_all (add_links mf s ls))) <->
+             (exists x y, In (x, y) ls /\ (k = x \/ k = y)) \/ In k (map fst (m_all s))).
+Proof.
+  induction ls as [|[a b] t IH]; intros s W; unfold add_links; cbn [fold_left fst snd].
+  - split; [exact W|]. split; [reflexivity|]. split; [intros; cbn [In]; tauto|].
+    intros k. split; [auto|intros [[x [y [[] _]]]|H]; exact H].
+  - destruct (add_link_WF Pany GRM_any s a b W Logic.I) as [W1 [M1 [L1 N1]]].
+    destruct (IH _ W1) as [W2 [M2 [L2 N2]]]. unfold add_links in *.
+    split; [exact W2|]. split; [congruence|]. split.
+    + intros x y. rewrite L2, L1. cbn [In]. split.
+      * intros [H|[[-> ->]|H]]; auto.
+      * intros [[H|H]|H]; [inversion H; subst; auto|auto|auto].
+    + intros k. rewrite N2, N1. cbn [In]. split.
+      * intros [[x [y [H Hk]]]|[Hk|[Hk|H]]]; [left; exists x, y; auto|left; exists a, b; auto|left; exists a, b; auto|auto].
+      * intros [[x [y [[H|H] Hk]]]|H]; [inversion H; subst x y; destruct Hk as [Hk|Hk]; auto|left; exists x, y; auto|auto].
+Qed.
+
+Lemma rm_add_matching_func_WF s : WF s ->
+  WF (rm_add_matching_func mf s) /\ m_mf (rm_add_matching_func mf s) = true /\
+  (forall x y, In (x, y) (links_of (rm_add_matching_func mf s)) <-> In (x, y) (links_of s)) /\
+  (forall k, In k (map fst (m_all (rm_add_matching_func mf s))) <-> exists x y, In (x, y) (links_of s) /\ (k = x \/ k = y)).
+Proof.
+  intros W. unfold rm_add_matching_func, rm_rebuild.
+  set (s1 := mkRm (m_heap s) (m_next s) (m_all s) true).
+  assert (E : links_of s1 = links_of s) by reflexivity. rewrite E.
+  destruct (add_links_WF (links_of s) (rm_clear s1) (WF_clear s1)) as [W2 [M2 [L2 N2]]].
+  split; [exact W2|]. split; [rewrite M2; reflexivity|]. split.
+  - intros x y. rewrite L2. cbn. tauto.
+  - intros k. rewrite N2. cbn. tauto.
+Qed.
+
+Lemma rstep_WF n s op : WF s -> WF (fst (rstep mf n s op)).
+Proof.
+  intros W. destruct op as [u r|u r|u r|u|u| |]; cbn [rstep].
+  - apply (add_link_WF Pany GRM_any s u r W Logic.I).
+  - apply (delete_link_WF Pany GRM_any s u r W Logic.I).
+  - destruct (has_link mf n s u r) as [s' b] eqn:E. cbn [fst].
+    pose proof (proj1 (has_link_WF Pany GRM_any URM_any n s u r W Logic.I)) as H. rewrite E in H. exact H.
+  - destruct (get_roles mf s u) as [s' b] eqn:E. cbn [fst].
+    pose proof (proj1 (get_roles_WF Pany GRM_any URM_any s u W Logic.I)) as H. rewrite E in H. exact H.
+  - destruct (get_users mf s u) as [s' b] eqn:E. cbn [fst].
+    pose proof (proj1 (get_users_WF Pany GRM_any URM_any s u W Logic.I)) as H. rewrite E in H. exact H.
+  - apply WF_clear.
+  - apply rm_add_matching_func_WF. exact W.
+Qed.
+
+Theorem rrun_WF_any n ops : forall s, WF s -> WF (rrun mf n s ops).
+Proof.
+  induction ops as [|op t IH]; intros s W; cbn [rrun fold_left]; [exact W|]. apply IH. apply rstep_WF. exact W.
+Qed.
+
+(* ---------- HasLink with a matching function: bounded reachability in the closure graph ---------- *)
+(* the edges hasLinkHelper follows: a stored link, or a stored link into a pattern w followed by a
+   registered name y that matches w, or a registered pattern p that x matches followed by a stored
+   link of p *)
+Definition pedge (L : list (string * string)) (N : list string) (b : bool) (x y : string) : Prop :=
+  In (x, y) L \/
+  (b = true /\ exists w, In (x, w) L /\ In y N /\ y <> w /\ mf y w = true) \/
+  (b = true /\ exists p, In p N /\ p <> x /\ mf x p = true /\ In (p, y) L).
+Inductive pwalk (L : list (string * string)) (N : list string) (b : bool) : string -> string -> nat -> Prop :=
+| pw0 x : pwalk L N b x x 0
+| pwS x y z k : pedge L N b x y -> pwalk L N b y z k -> pwalk L N b x z (S k).
+
+Lemma keys_regd s k : In k (map fst (m_all s)) <-> exists j, regd s k j.
+Proof.
+  split.
+  - intros H. apply in_map_iff in H as [[k' j] [E H]]. cbn [fst] in E. subst. eauto.
+  - intros [j H]. eapply In_keys; eauto.
+Qed.
+
+Lemma roles_key_link s x i o y : WFs s -> regd s x i -> hget i (m_heap s) = Some o ->
+  (In y (map fst (o_roles o)) <-> In (x, y) (links_of s)).
+Proof.
+  intros W H G. rewrite (links_of_In _ _ _ W). split; [eauto|].
+  intros [i' [o' [H' [G' HI]]]]. assert (i' = i) by (eapply regd_fun; eauto). subst. congruence.
+Qed.
+
+Lemma sedge_spec s x i y : WF s -> regd s x i ->
+  (sedge s x y <-> pedge (links_of s) (map fst (m_all s)) (m_mf s) x y).
+Proof.
+  intros [W Wm] H. destruct (ws_obj _ W _ _ H) as [o [G _]].
+  rewrite (sedge_iff _ _ _ _ y W H G). unfold range_roles, pedge. rewrite !map_app, !in_app_iff.
+  rewrite (roles_key_link _ _ _ _ y W H G).
+  assert (E2 : In y (map fst (flat_map (fun p => o_matched (obj_of (m_heap s) (snd p))) (o_roles o))) <->
+               (m_mf s = true /\ exists w, In (x, w) (links_of s) /\ In y (map fst (m_all s)) /\ y <> w /\ mf y w = true)).
+  { rewrite in_map_iff. split.
+    - intros [[y' v] [Ey HI]]. cbn [fst] in Ey. subst y'. apply in_flat_map in HI as [[w j1] [H1 H2]]. cbn [snd] in H2.
+      destruct (ws_roles _ W _ _ _ _ _ H G H1) as [R1 _]. destruct (ws_obj _ W _ _ R1) as [o1 [G1 _]].
+      rewrite (obj_of_get _ _ _ G1) in H2. destruct (Wm _ _ _ R1 G1) as [_ [_ [M _]]]. apply M in H2 as [Ry [Ny [Hm F]]].
+      split; [exact Hm|]. exists w. split; [apply (roles_key_link _ _ _ _ w W H G); eapply In_keys; eauto|].
+      split; [apply keys_regd; eauto|auto].
+    - intros [Hm [w [Hl [Hy [Ny F]]]]]. apply (roles_key_link _ _ _ _ w W H G) in Hl.
+      apply in_map_iff in Hl as [[w' j1] [Ew H1]]. cbn [fst] in Ew. subst w'.
+      destruct (ws_roles _ W _ _ _ _ _ H G H1) as [R1 _]. destruct (ws_obj _ W _ _ R1) as [o1 [G1 _]].
+      apply keys_regd in Hy as [v Ry]. exists (y, v). split; [reflexivity|]. apply in_flat_map. exists (w, j1).
+      split; [exact H1|]. cbn [snd]. rewrite (obj_of_get _ _ _ G1). destruct (Wm _ _ _ R1 G1) as [_ [_ [M _]]]. apply M. auto. }
+  assert (E3 : In y (map fst (flat_map (fun p => o_roles (obj_of (m_heap s) (snd p))) (o_matchedBy o))) <->
+               (m_mf s = true /\ exists p, In p (map fst (m_all s)) /\ p <> x /\ mf x p = true /\ In (p, y) (links_of s))).
+  { destruct (Wm _ _ _ H G) as [_ [_ [_ M]]]. rewrite in_map_iff. split.
+    - intros [[y' v] [Ey HI]]. cbn [fst] in Ey. subst y'. apply in_flat_map in HI as [[p j1] [H1 H2]]. cbn [snd] in H2.
+      apply M in H1 as [R1 [Np [Hm F]]]. destruct (ws_obj _ W _ _ R1) as [o1 [G1 _]].
+      rewrite (obj_of_get _ _ _ G1) in H2. split; [exact Hm|]. exists p. split; [apply keys_regd; eauto|].
+      split; [exact Np|split; [exact F|]]. apply (roles_key_link _ _ _ _ y W R1 G1). eapply In_keys; eauto.
+    - intros [Hm [p [Hp [Np [F Hl]]]]]. apply keys_regd in Hp as [j1 R1]. destruct (ws_obj _ W _ _ R1) as [o1 [G1 _]].
+      apply (roles_key_link _ _ _ _ y W R1 G1) in Hl. apply in_map_iff in Hl as [[y' v] [Ey H2]]. cbn [fst] in Ey. subst y'.
+      exists (y, v). split; [reflexivity|]. apply in_flat_map. exists (p, j1). split; [apply M; auto|].
+      cbn [snd]. rewrite (obj_of_get _ _ _ G1). exact H2. }
+  rewrite E2, E3. tauto.
+Qed.
+
+Lemma sedge_target_regd s x y : WF s -> sedge s x y -> exists j, regd s y j.
+Proof.
+  intros W [i [o [H [G HI]]]]. apply in_map_iff in HI as [[y' j] [E HI]]. cbn [fst] in E. subst y'.
+  exists j. eapply range_roles_regd; eauto.
+Qed.
+
+Lemma swalk_pwalk s x y k : WF s -> swalk s x y k -> pwalk (links_of s) (map fst (m_all s)) (m_mf s) x y k.
+Proof.
+  intros W Wk. induction Wk as [x|x y z k He Hw IH]; [constructor|]. econstructor; [|exact IH].
+  destruct He as [i [o [H [G HI]]]]. apply (sedge_spec s x i y W H). exists i, o. auto.
+Qed.
+Lemma pwalk_swalk s x y k : WF s -> (exists i, regd s x i) ->
+  pwalk (links_of s) (map fst (m_all s)) (m_mf s) x y k -> swalk s x y k.
+Proof.
+  intros W Hx Wk. induction Wk as [x|x y z k He Hw IH]; [constructor|]. destruct Hx as [i H].
+  apply (sedge_spec s x i y W H) in He. econstructor; [exact He|]. apply IH. eapply sedge_target_regd; eauto.
+Qed.
+
+Lemma pwalk_equiv L N L' N' b x y k : (forall a c, In (a, c) L <-> In (a, c) L') -> (forall a, In a N <-> In a N') ->
+  pwalk L N b x y k -> pwalk L' N' b x y k.
+Proof.
+  intros HL HN Wk. induction Wk as [x|x y z k He Hw IH]; [constructor|]. econstructor; [|exact IH].
+  destruct He as [H|[[Hb [w [H1 [H2 [H3 H4]]]]]|[Hb [p [H1 [H2 [H3 H4]]]]]]].
+  - left. apply HL. exact H.
+  - right. left. split; [exact Hb|]. exists w. rewrite <- HL, <- HN. auto.
+  - right. right. split; [exact Hb|]. exists p. rewrite <- HL, <- HN. auto.
+Qed.
+
+Lemma hl_state_any s n1 n2 : WF s ->
+  WF (hl_state s n1 n2) /\ m_mf (hl_state s n1 n2) = m_mf s /\
+  (forall x y, In (x, y) (links_of (hl_state s n1 n2)) <-> In (x, y) (links_of s)) /\
+  (forall k, In k (map fst (m_all (hl_state s n1 n2))) <-> k = n1 \/ k = n2 \/ In k (map fst (m_all s))) /\
+  (exists i, regd (hl_state s n1 n2) n1 i).
+Proof.
+  intros W. unfold hl_state.
+  destruct (get_role mf s n1) as [[s1 u] uc] eqn:E1. cbn [fst]. destruct (get_role mf s1 n2) as [[s2 r] rc] eqn:E2. cbn [fst].
+  destruct (get_role_WF Pany GRM_any _ _ _ _ _ W Logic.I E1) as [W1 [H1 [M1 Mono1]]].
+  destruct (get_role_WF Pany GRM_any _ _ _ _ _ W1 Logic.I E2) as [W2 [H2 [M2 Mono2]]].
+  split; [exact W2|]. split; [congruence|]. split; [|split].
+  - intros x y. rewrite (get_role_links _ _ _ _ _ x y (proj1 W1) E2). apply (get_role_links _ _ _ _ _ x y (proj1 W) E1).
+  - intros k. rewrite !keys_regd. split.
+    + intros [j H]. apply (get_role_regd _ _ _ _ _ k j (proj1 W1) E2) in H. destruct H as [H|[_ [-> _]]]; [|auto].
+      apply (get_role_regd _ _ _ _ _ k j (proj1 W) E1) in H. destruct H as [H|[_ [-> _]]]; [|auto]. right. right. eauto.
+    + intros [->|[->|[j H]]]; [exists u; auto|exists r; auto|exists j; auto].
+  - exists u. auto.
+Qed.
+
+(* HasLink(u, r) with (or without) a matching function = reachability within n edges, from u to a
+   name that is r or matches r, in the graph of the stored links closed under pattern matching over
+   the REGISTERED names (plus u and r themselves, registered for the duration of the call) *)
+Theorem has_link_pattern_spec n s u r : WF s ->
+  (snd (has_link mf n s u r) = true <->
+   exists y k, k <= n /\
+     pwalk (links_of s) (u :: r :: map fst (m_all s)) (m_mf s) u y k /\
+     (y = r \/ (m_mf s = true /\ mf y r = true))).
+Proof.
+  intros W. rewrite (has_link_value Pany GRM_any n s u r W Logic.I).
+  destruct (hl_state_any s u r W) as [W2 [M2 [L2 [N2 R2]]]]. unfold starget.
+  assert (HN : forall a, In a (map fst (m_all (hl_state s u r))) <-> In a (u :: r :: map fst (m_all s))).
+  { intros a. rewrite N2. cbn [In]. intuition. }
+  split; intros [y [k [Hk [Hw Ht]]]]; exists y, k; (split; [exact Hk|split; [|exact Ht]]).
+  - apply swalk_pwalk in Hw; [|exact W2]. rewrite M2 in Hw. eapply pwalk_equiv; [exact L2|exact HN|exact Hw].
+  - apply pwalk_swalk; [exact W2|exact R2|]. rewrite M2.
+    eapply pwalk_equiv; [intros a c; symmetry; apply L2|intros a; symmetry; apply HN|exact Hw].
+Qed.
+
+(* ---------- when the answer is a function of the stored links alone ---------- *)
+Definition link_names (L : list (string * string)) : list string := flat_map (fun l => [fst l; snd l]) L.
+Lemma link_names_In L k : In k (link_names L) <-> exists x y, In (x, y) L /\ (k = x \/ k = y).
+Proof.
+  unfold link_names. rewrite in_flat_map. split.
+  - intros [[x y] [H HI]]. cbn [fst snd In] in HI. exists x, y. split; [exact H|].
+    destruct HI as [E|[E|[]]]; [left|right]; congruence.
+  - intros [x [y [H [->| ->]]]]; exists (x, y); cbn [fst snd In]; auto.
+Qed.
+
+(* no lingering names: every registered name is an endpoint of a stored link *)
+Definition tight (s : rmgr) : Prop := forall k, In k (map fst (m_all s)) -> In k (link_names (links_of s)).
+
+Lemma link_ends_regd s x y : WFs s -> In (x, y) (links_of s) -> In x (map fst (m_all s)) /\ In y (map fst (m_all s)).
+Proof.
+  intros W H. apply (links_of_In _ _ _ W) in H as [i [o [R [G HI]]]]. split; [eapply In_keys; eauto|].
+  apply in_map_iff in HI as [[y' j] [E HI]]. cbn [fst] in E. subst y'.
+  destruct (ws_roles _ W _ _ _ _ _ R G HI) as [R' _]. eapply In_keys; eauto.
+Qed.
+
+Lemma tight_names s a : WF s -> tight s -> (In a (map fst (m_all s)) <-> In a (link_names (links_of s))).
+Proof.
+  intros W T. split; [apply T|]. intros H. apply link_names_In in H as [x [y [H [->| ->]]]];
+    apply (link_ends_regd _ _ _ (proj1 W) H).
+Qed.
+
+Definition nodel_rop (op : rop) : Prop := match op with RDel _ _ => False | _ => True end.
+
+Lemma keys_of_regd_iff s s' : (forall k j, regd s' k j <-> regd s k j) ->
+  forall k, In k (map fst (m_all s')) <-> In k (map fst (m_all s)).
+Proof. intros H k. rewrite !keys_regd. split; intros [j Hj]; exists j; apply H; exact Hj. Qed.
+
+Lemma tight_transport s s' : tight s ->
+  (forall k, In k (map fst (m_all s')) <-> In k (map fst (m_all s))) ->
+  (forall x y, In (x, y) (links_of s') <-> In (x, y) (links_of s)) -> tight s'.
+Proof.
+  intros T HN HL k H. apply HN in H. apply T in H. apply link_names_In in H as [x [y [H Hk]]].
+  apply link_names_In. exists x, y. split; [apply HL; exact H|exact Hk].
+Qed.
+
+Lemma rstep_tight n s op : WF s -> tight s -> nodel_rop op -> tight (fst (rstep mf n s op)).
+Proof.
+  intros W T Hop. destruct op as [u r|u r|u r|u|u| |]; cbn [rstep nodel_rop] in *.
+  - destruct (add_link_WF Pany GRM_any s u r W Logic.I) as [_ [_ [L1 N1]]]. intros k H. apply N1 in H.
+    apply link_names_In. destruct H as [->|[->|H]].
+    + exists u, r. split; [apply L1; auto|auto].
+    + exists u, r. split; [apply L1; auto|auto].
+    + apply T in H. apply link_names_In in H as [x [y [H Hk]]]. exists x, y. split; [apply L1; auto|exact Hk].
+  - destruct Hop.
+  - destruct (has_link mf n s u r) as [s' b] eqn:E. cbn [fst].
+    destruct (has_link_WF Pany GRM_any URM_any n s u r W Logic.I) as [_ [_ [R1 L1]]]. rewrite E in *. cbn [fst] in *.
+    eapply tight_transport; [exact T|apply keys_of_regd_iff; exact R1|exact L1].
+  - destruct (get_roles mf s u) as [s' b] eqn:E. cbn [fst].
+    destruct (get_roles_WF Pany GRM_any URM_any s u W Logic.I) as [_ [_ [R1 L1]]]. rewrite E in *. cbn [fst] in *.
+    eapply tight_transport; [exact T|apply keys_of_regd_iff; exact R1|exact L1].
+  - destruct (get_users mf s u) as [s' b] eqn:E. cbn [fst].
+    destruct (get_users_WF Pany GRM_any URM_any s u W Logic.I) as [_ [_ [R1 L1]]]. rewrite E in *. cbn [fst] in *.
+    eapply tight_transport; [exact T|apply keys_of_regd_iff; exact R1|exact L1].
+  - intros k [].
+  - destruct (rm_add_matching_func_WF s W) as [_ [_ [L1 N1]]]. intros k H. apply N1 in H as [x [y [H Hk]]].
+    apply link_names_In. exists x, y. split; [apply L1; exact H|exact Hk].
+Qed.
+
+(* every history WITHOUT DeleteLink (AddLink, queries, Clear, AddMatchingFunc at any point) keeps the
+   structure free of lingering names; AddMatchingFunc (rebuild) re-establishes it after any history *)
+Theorem rrun_tight n ops : forall s, WF s -> tight s -> Forall nodel_rop ops -> tight (rrun mf n s ops).
+Proof.
+  induction ops as [|op t IH]; intros s W T HF; cbn [rrun fold_left]; [exact T|].
+  inversion HF as [|x l Hop Ht]. subst. apply IH; [apply rstep_WF; exact W|apply rstep_tight; assumption|exact Ht].
+Qed.
+Theorem rebuild_tight s : WF s -> tight (rm_add_matching_func mf s).
+Proof.
+  intros W. destruct (rm_add_matching_func_WF s W) as [_ [_ [L1 N1]]]. intros k H. apply N1 in H as [x [y [H Hk]]].
+  apply link_names_In. exists x, y. split; [apply L1; exact H|exact Hk].
+Qed.
+
+(* in a structure without lingering names HasLink is determined by the SET of stored links *)
+Theorem has_link_tight_spec n s u r : WF s -> tight s ->
+  (snd (has_link mf n s u r) = true <->
+   exists y k, k <= n /\
+     pwalk (links_of s) (u :: r :: link_names (links_of s)) (m_mf s) u y k /\
+     (y = r \/ (m_mf s = true /\ mf y r = true))).
+Proof.
+  intros W T. rewrite (has_link_pattern_spec n s u r W).
+  assert (HN : forall a, In a (u :: r :: map fst (m_all s)) <-> In a (u :: r :: link_names (links_of s))).
+  { intros a. cbn [In]. rewrite (tight_names s a W T). tauto. }
+  split; intros [y [k [Hk [Hw Ht]]]]; exists y, k; (split; [exact Hk|split; [|exact Ht]]).
+  - eapply pwalk_equiv; [intros; apply iff_refl|exact HN|exact Hw].
+  - eapply pwalk_equiv; [intros; apply iff_refl|intros a; symmetry; apply HN|exact Hw].
+Qed.
+
+Theorem has_link_links_only n s1 s2 u r : WF s1 -> WF s2 -> tight s1 -> tight s2 -> m_mf s1 = m_mf s2 ->
+  (forall x y, In (x, y) (links_of s1) <-> In (x, y) (links_of s2)) ->
+  snd (has_link mf n s1 u r) = snd (has_link mf n s2 u r).
+Proof.
+  intros W1 W2 T1 T2 Hm HL. apply bool_eq_iff.
+  rewrite (has_link_tight_spec n s1 u r W1 T1), (has_link_tight_spec n s2 u r W2 T2). rewrite Hm.
+  assert (HN : forall a, In a (u :: r :: link_names (links_of s1)) <-> In a (u :: r :: link_names (links_of s2))).
+  { intros a. cbn [In]. rewrite !link_names_In. split; (intros [H|[H|[x [y [H Hk]]]]]; [auto|auto|]);
+      right; right; exists x, y; (split; [apply HL; exact H|exact Hk]). }
+  split; intros [y [k [Hk [Hw Ht]]]]; exists y, k; (split; [exact Hk|split; [|exact Ht]]).
+  - eapply pwalk_equiv; [exact HL|exact HN|exact Hw].
+  - eapply pwalk_equiv; [intros a c; symmetry; apply HL|intros a; symmetry; apply HN|exact Hw].
+Qed.
+
+End WithMatching.
+
+(* ================= DomainManager over ALL histories (matching functions included) =================
+   every per-domain manager stays well-formed and carries the role matching flag of its owner *)
+Section DomainAll.
+Variable mf : string -> string -> bool.
+Variable dmf : string -> string -> bool.
+Notation Pany := (fun _ : bool => True).
+
+Record DWF (dm : dmgr) : Prop := mkDWF {
+  dw_nodup : NoDup (map fst (d_rms dm));
+  dw_rm : forall d rm, In (d, rm) (d_rms dm) -> WF mf rm /\ m_mf rm = d_mf dm }.
+
+Lemma DWF_new : DWF new_dm.
+Proof. constructor; cbn; [constructor|tauto]. Qed.
+
+Lemma DWF_upd dm d rm : DWF dm -> WF mf rm -> m_mf rm = d_mf dm -> DWF (set_rms dm (mput d rm (d_rms dm))).
+Proof.
+  intros D W M. constructor; cbn [set_rms d_rms d_mf].
+  - apply mput_nodup. apply D.
+  - intros d' rm' H. apply mput_In_weak in H as [[_ ->]|H]; [auto|apply (dw_rm _ D _ _ H)].
+Qed.
+
+Lemma copy_from_WF s other : WF mf s -> WF mf (copy_from mf s other) /\ m_mf (copy_from mf s other) = m_mf s.
+Proof. intros W. destruct (add_links_WF mf (links_of other) s W) as [W' [M' _]]. auto. Qed.
+
+Lemma fold_copy_WF (cond : string * rmgr -> bool) l : forall acc, WF mf acc ->
+  WF mf (fold_left (fun a p => if cond p then copy_from mf a (snd p) else a) l acc) /\
+  m_mf (fold_left (fun a p => if cond p then copy_from mf a (snd p) else a) l acc) = m_mf acc.
+Proof.
+  induction l as [|p t IH]; intros acc W; cbn [fold_left]; [auto|]. destruct (cond p).
+  - destruct (copy_from_WF acc (snd p) W) as [W' M']. destruct (IH _ W') as [W2 M2]. split; [exact W2|congruence].
+  - apply IH. exact W.
+Qed.
+
+Lemma get_rm_DWF dm d store dm1 rm : DWF dm -> get_rm mf dmf dm d store = (dm1, rm) ->
+  DWF dm1 /\ WF mf rm /\ m_mf rm = d_mf dm /\ d_mf dm1 = d_mf dm /\ d_dmf dm1 = d_dmf dm.
+Proof.
+  intros D E. unfold get_rm in E. destruct (lookup d (d_rms dm)) as [rm0|] eqn:L.
+  - inversion E. subst. apply lookup_In in L. destruct (dw_rm _ D _ _ L). auto.
+  - set (rm0 := new_rm (d_mf dm)) in *.
+    set (rms1 := if store then mput d rm0 (d_rms dm) else d_rms dm) in *.
+    set (rm1 := if d_dmf dm then fold_left (fun acc p => if negb (String.eqb d (fst p)) && dm_match dmf dm d (fst p)
+                                         then copy_from mf acc (snd p) else acc) rms1 rm0 else rm0) in *.
+    assert (W1 : WF mf rm1 /\ m_mf rm1 = d_mf dm).
+    { unfold rm1. destruct (d_dmf dm); [|split; [apply WF_new|reflexivity]].
+      destruct (fold_copy_WF (fun p => negb (String.eqb d (fst p)) && dm_match dmf dm d (fst p)) rms1 rm0 (WF_new mf _)) as [Wf Mf].
+      split; [exact Wf|exact Mf]. }
+    inversion E. subst rm. destruct W1 as [W1 M1]. split; [|auto].
+    destruct store; [|subst dm1; exact D]. subst dm1.
+    assert (D1 : DWF (set_rms dm rms1)) by (apply DWF_upd; [exact D|apply WF_new|reflexivity]).
+    apply (DWF_upd (set_rms dm rms1) d rm1 D1 W1 M1).
+    destruct store; subst dm1; reflexivity.
+    destruct store; subst dm1; reflexivity.
+Qed.
+
+Lemma range_affected_DWF dm d fn : DWF dm ->
+  (forall rm, WF mf rm -> WF mf (fn rm) /\ m_mf (fn rm) = m_mf rm) -> DWF (range_affected dmf dm d fn).
+Proof.
+  intros D Hf. unfold range_affected. destruct (d_dmf dm); [|exact D].
+  constructor; cbn [set_rms d_rms d_mf].
+  - rewrite map_map. erewrite map_ext; [apply (dw_nodup _ D)|]. intros [d' rm']. cbn [fst]. destruct (_ && _); reflexivity.
+  - intros d' rm' H. apply in_map_iff in H as [[d0 rm0] [E H]]. cbn [fst snd] in E.
+    destruct (dw_rm _ D _ _ H) as [W0 M0]. destruct (negb (String.eqb d d0) && dm_match dmf dm d0 d); inversion E; subst.
+    + destruct (Hf _ W0) as [W' M']. split; [exact W'|congruence].
+    + auto.
+Qed.
+
+Lemma range_affected_flags dm d fn : d_mf (range_affected dmf dm d fn) = d_mf dm /\ d_dmf (range_affected dmf dm d fn) = d_dmf dm.
+Proof. unfold range_affected. destruct (d_dmf dm) eqn:E; cbn; auto. Qed.
+
+Lemma dm_add_link_DWF dm u r d : DWF dm ->
+  DWF (dm_add_link mf dmf dm u r d) /\ d_mf (dm_add_link mf dmf dm u r d) = d_mf dm /\ d_dmf (dm_add_link mf dmf dm u r d) = d_dmf dm.
+Proof.
+  intros D. unfold dm_add_link. destruct (get_rm mf dmf dm d true) as [dm1 rm] eqn:E.
+  destruct (get_rm_DWF _ _ _ _ _ D E) as [D1 [W [M [F1 F2]]]].
+  destruct (add_link_WF mf Pany (GRM_any mf) rm u r W Logic.I) as [W' [M' _]].
+  assert (D2 : DWF (set_rms dm1 (mput d (add_link mf rm u r) (d_rms dm1)))) by (apply DWF_upd; [exact D1|exact W'|congruence]).
+  split; [|destruct (range_affected_flags (set_rms dm1 (mput d (add_link mf rm u r) (d_rms dm1))) d (fun rm2 => add_link mf rm2 u r)) as [A B];
+            rewrite A, B; cbn [set_rms d_mf d_dmf]; auto].
+  apply range_affected_DWF; [exact D2|]. intros rm2 W2.
+  destruct (add_link_WF mf Pany (GRM_any mf) rm2 u r W2 Logic.I) as [Wa [Ma _]]. auto.
+Qed.
+
+Lemma dm_delete_link_DWF dm u r d : DWF dm ->
+  DWF (dm_delete_link mf dmf dm u r d) /\ d_mf (dm_delete_link mf dmf dm u r d) = d_mf dm /\ d_dmf (dm_delete_link mf dmf dm u r d) = d_dmf dm.
+Proof.
+  intros D. unfold dm_delete_link. destruct (get_rm mf dmf dm d true) as [dm1 rm] eqn:E.
+  destruct (get_rm_DWF _ _ _ _ _ D E) as [D1 [W [M [F1 F2]]]].
+  destruct (delete_link_WF mf Pany (GRM_any mf) rm u r W Logic.I) as [W' [M' _]].
+  assert (D2 : DWF (set_rms dm1 (mput d (delete_link mf rm u r) (d_rms dm1)))) by (apply DWF_upd; [exact D1|exact W'|congruence]).
+  split; [|destruct (range_affected_flags (set_rms dm1 (mput d (delete_link mf rm u r) (d_rms dm1))) d (fun rm2 => delete_link mf rm2 u r)) as [A B];
+            rewrite A, B; cbn [set_rms d_mf d_dmf]; auto].
+  apply range_affected_DWF; [exact D2|]. intros rm2 W2.
+  destruct (delete_link_WF mf Pany (GRM_any mf) rm2 u r W2 Logic.I) as [Wa [Ma _]]. auto.
+Qed.
+
+Lemma dm_query_DWF {A} dm d (q : rmgr -> rmgr * A) : DWF dm ->
+  (forall rm, WF mf rm -> WF mf (fst (q rm)) /\ m_mf (fst (q rm)) = m_mf rm) ->
+  DWF (fst (dm_query mf dmf dm d q)) /\ d_mf (fst (dm_query mf dmf dm d q)) = d_mf dm /\ d_dmf (fst (dm_query mf dmf dm d q)) = d_dmf dm.
+Proof.
+  intros D Hq. unfold dm_query. destruct (get_rm mf dmf dm d false) as [dm1 rm] eqn:E.
+  destruct (get_rm_DWF _ _ _ _ _ D E) as [D1 [W [M [F1 F2]]]].
+  destruct (q rm) as [rm' a] eqn:Eq. destruct (Hq rm W) as [W' M']. rewrite Eq in *. cbn [fst] in *.
+  destruct (lookup d (d_rms dm1)); cbn [fst set_rms d_mf d_dmf]; [|auto].
+  split; [apply DWF_upd; [exact D1|exact W'|congruence]|auto].
+Qed.
+
+Lemma fold_dm_add_DWF d ls : forall dm, DWF dm ->
+  let r := fold_left (fun acc l => dm_add_link mf dmf acc (fst l) (snd l) d) ls dm in
+  DWF r /\ d_mf r = d_mf dm /\ d_dmf r = d_dmf dm.
+Proof.
+  induction ls as [|[a b] t IH]; intros dm D; cbn [fold_left fst snd]; [auto|].
+  destruct (dm_add_link_DWF dm a b d D) as [D1 [A1 B1]]. destruct (IH _ D1) as [D2 [A2 B2]].
+  cbv zeta in *. split; [exact D2|]. split; congruence.
+Qed.
+
+Lemma dm_rebuild_DWF dm : DWF (dm_rebuild mf dmf dm) /\ d_mf (dm_rebuild mf dmf dm) = d_mf dm /\ d_dmf (dm_rebuild mf dmf dm) = d_dmf dm.
+Proof.
+  unfold dm_rebuild.
+  assert (G : forall l acc, DWF acc ->
+     let r := fold_left (fun acc p => fold_left (fun acc2 l => dm_add_link mf dmf acc2 (fst l) (snd l) (fst p)) (links_of (snd p)) acc) l acc in
+     DWF r /\ d_mf r = d_mf acc /\ d_dmf r = d_dmf acc).
+  { induction l as [|p t IH]; intros acc D; cbn [fold_left]; [auto|].
+    destruct (fold_dm_add_DWF (fst p) (links_of (snd p)) acc D) as [D1 [A1 B1]]. destruct (IH _ D1) as [D2 [A2 B2]].
+    cbv zeta in *. split; [exact D2|]. split; congruence. }
+  apply (G (d_rms dm) (dm_clear dm)). constructor; cbn; [constructor|tauto].
+Qed.
+
+Lemma dstep_DWF n dm op : DWF dm -> DWF (fst (dstep mf dmf n dm op)).
+Proof.
+  intros D. destruct op as [u r d|u r d|u r d|u d|u d| | |]; cbn [dstep].
+  - apply dm_add_link_DWF. exact D.
+  - apply dm_delete_link_DWF. exact D.
+  - destruct (dm_has_link mf dmf n dm u r d) as [dm' b] eqn:E. cbn [fst].
+    assert (H : DWF (fst (dm_query mf dmf dm d (fun rm => has_link mf n rm u r)))).
+    { apply dm_query_DWF; [exact D|]. intros rm W.
+      destruct (has_link_WF mf Pany (GRM_any mf) (URM_any mf) n rm u r W Logic.I) as [W' [M' _]]. auto. }
+    unfold dm_has_link in E. rewrite E in H. exact H.
+  - destruct (dm_get_roles mf dmf dm u d) as [dm' b] eqn:E. cbn [fst].
+    assert (H : DWF (fst (dm_query mf dmf dm d (fun rm => get_roles mf rm u)))).
+    { apply dm_query_DWF; [exact D|]. intros rm W.
+      destruct (get_roles_WF mf Pany (GRM_any mf) (URM_any mf) rm u W Logic.I) as [W' [M' _]]. auto. }
+    unfold dm_get_roles in E. rewrite E in H. exact H.
+  - destruct (dm_get_users mf dmf dm u d) as [dm' b] eqn:E. cbn [fst].
+    assert (H : DWF (fst (dm_query mf dmf dm d (fun rm => get_users mf rm u)))).
+    { apply dm_query_DWF; [exact D|]. intros rm W.
+      destruct (get_users_WF mf Pany (GRM_any mf) (URM_any mf) rm u W Logic.I) as [W' [M' _]]. auto. }
+    unfold dm_get_users in E. rewrite E in H. exact H.
+  - constructor; cbn; [constructor|tauto].
+  - unfold dm_add_matching_func. constructor; cbn [d_rms d_mf].
+    + rewrite map_map. cbn [fst]. apply (dw_nodup _ D).
+    + intros d rm H. apply in_map_iff in H as [[d0 rm0] [E H]]. cbn [fst snd] in E. inversion E. subst.
+      destruct (dw_rm _ D _ _ H) as [W0 _]. destruct (rm_add_matching_func_WF mf rm0 W0) as [W' [M' _]]. auto.
+  - unfold dm_add_domain_matching_func. apply dm_rebuild_DWF.
+Qed.
+
+Theorem drun_DWF n ops : forall dm, DWF dm -> DWF (drun mf dmf n dm ops).
+Proof.
+  induction ops as [|op t IH]; intros dm D; cbn [drun fold_left]; [exact D|]. apply IH. apply dstep_DWF. exact D.
+Qed.
+End DomainAll.
